@@ -92,12 +92,26 @@ class ODictAdapter:
             res = _none(_res_call(d.append, args[0], args[1]))
         elif name == "Create":
             res = _none(_res_call(d.create, [(args[0], args[1])]))
+        elif name == "Create2":
+            # the three documented argument forms of create(): sequence of duples, keyword arguments, several sequences
+            form = (2 * args[1] + args[3] + len(d)) % 3
+            if form == 0 or args[0] == args[2]:
+                res = _none(_res_call(d.create, [(args[0], args[1]), (args[2], args[3])]))
+            elif form == 1:
+                res = _none(_res_call(d.create, [(args[0], args[1])], [(args[2], args[3])]))
+            else:
+                res = _none(_res_call(d.create, [(args[0], args[1])], **{args[2]: args[3]}))
         elif name == "SetDefault":
             res = _val(_res_call(d.setdefault, args[0], args[1]))
         elif name == "Update2":
             res = _none(_res_call(d.update, [(args[0], args[1]), (args[2], args[3])]))
         elif name == "Reorder":
             res = _none(_res_call(d.reorder, self.cls([(args[0], args[1])])))
+        elif name == "ReorderPlain":
+            from ioflo.aid import odicting
+            res = _none(_res_call(d.reorder, odicting.odict([(args[0], args[1])])))
+        elif name == "ReorderSelf":
+            res = _none(_res_call(d.reorder, d))
         elif name == "Sift2":
             r = _res_call(d.sift, [args[0], args[1]])
             if r[0] == "ok":
@@ -187,6 +201,15 @@ class MODictAdapter:
             res = {"t": "items", "v": _pairs(d.allitems())}
         elif name == "Copy":
             c = d.copy()
+            assert type(c) is self.cls and c is not d
+            res = {"t": "items", "v": _pairs(c.listitems())}
+        elif name in ("Pickle", "CopyModule"):
+            import copy as _copy
+            import pickle as _pickle
+            if name == "Pickle":
+                c = _pickle.loads(_pickle.dumps(d, args[0]))
+            else:
+                c = _copy.deepcopy(d) if args[0] else _copy.copy(d)
             assert type(c) is self.cls and c is not d
             res = {"t": "items", "v": _pairs(c.listitems())}
         elif name == "Clear":
